@@ -3,3 +3,4 @@ pub mod name;
 pub mod rdata;
 pub mod tsig;
 pub mod wire;
+pub mod zone;
